@@ -766,6 +766,69 @@ def mon_C18(ops, results):
     return out
 
 
+def mon_C19(ops, results):
+    """a query over $_keyspace ranges over exactly the documents of its collection that have a body (as the KV read-back shows them),
+    each once; an exhausted iterator stays exhausted."""
+    import json as _j
+    out = []
+    for i, name, pos, args, res, last, feeds in Trace(ops, results).steps():
+        if name != "query" or not res.startswith("r=ok"):
+            if name == "query":
+                out.append(viol("C19.query-runs", i, "query failed: " + res[:100]))
+            continue
+        rf = res_fields(res)
+        rows_txt = res.split(" rows=", 1)[1] if " rows=" in res else ""
+        rows = [r for r in rows_txt.split(";{") if r]
+        rows = [("{" + r if not r.startswith("{") else r) for r in rows]
+        if rf.get("again") != "false":
+            out.append(viol("C19.rows-once", i, "the iterator returned a row after reporting exhaustion"))
+        q = int(arg(args, "q", "1"))
+        coll = pos[0]
+        known = {k: d for (c, k), d in last.items() if c == coll}
+        live = sorted(k for k, d in known.items() if has_body(d))
+        parsed = [_json_or_none(r) for r in rows]
+        if q == 2:
+            # rows seen so far are a lower bound of the collection's content (keys never read back are unknown)
+            continue
+        ids = [p.get("id") for p in parsed if isinstance(p, dict)]
+        if len(ids) != len(set(ids)):
+            out.append(viol("C19.rows-once", i, "a document appears twice: %s" % ids))
+        for k in ids:
+            d = known.get(k)
+            if d is not None and not has_body(d):
+                out.append(viol("C19.only-live-documents", i, "query %d returned %s which has no body" % (q, k)))
+            others = [c for (c, kk), dd in last.items() if kk == k and c != coll and has_body(dd)]
+            if d is not None and absent(d) and others:
+                out.append(viol("C19.only-own-collection", i, "query on %s returned %s which only exists in %s" % (coll, k, others)))
+        if q == 1:
+            for k in live:
+                if k not in ids:
+                    out.append(viol("C19.every-live-document", i, "live document %s/%s missing from SELECT id" % (coll, k)))
+        if q == 3:
+            for p in parsed:
+                if isinstance(p, dict) and p.get("id") in known and has_body(known[p["id"]]):
+                    body = _json_or_none(known[p["id"]]["row.v"][1:])
+                    if body is not None and p.get("doc") != body:
+                        out.append(viol("C19.current-body", i, "query shows %s for %s, KV read-back has %s" % (p.get("doc"), p["id"], body)))
+            for k in live:
+                body = _json_or_none(known[k]["row.v"][1:])
+                if body is not None and isinstance(body, (dict, list)) and k not in ids:
+                    out.append(viol("C19.every-live-document", i, "JSON document %s/%s missing from the body query" % (coll, k)))
+        if q in (4, 5):
+            for k in live:
+                x = xmap(known[k].get("row.x", "~"))
+                want = bool(x) if q == 4 else ("_sync" in x)
+                if want != (k in ids):
+                    out.append(viol("C19.current-xattrs", i, "query %d on %s: %s has xattrs %s but %s in the result" % (q, coll, k, sorted(x), "is" if k in ids else "is not")))
+        if q == 6:
+            for k in live:
+                body = _json_or_none(known[k]["row.v"][1:])
+                if isinstance(body, dict) and isinstance(body.get("a"), int):
+                    if (body["a"] >= 50) != (k in ids):
+                        out.append(viol("C19.filter-on-body-property", i, "%s has a=%s but %s in the result of a >= 50" % (k, body["a"], "is" if k in ids else "is not")))
+    return out
+
+
 MAX_DELTA = 60 * 60 * 24 * 30
 
 
@@ -823,5 +886,5 @@ def mon_C14(ops, results):
     return out
 
 
-MONITORS = {"C14": mon_C14, "C18": mon_C18, "C04": mon_C04, "C01": mon_C01, "C02": mon_C02, "C05": mon_C05, "C06": mon_C06, "C07": mon_C07, "C08": mon_C08, "C09": mon_C09,
+MONITORS = {"C14": mon_C14, "C18": mon_C18, "C19": mon_C19, "C04": mon_C04, "C01": mon_C01, "C02": mon_C02, "C05": mon_C05, "C06": mon_C06, "C07": mon_C07, "C08": mon_C08, "C09": mon_C09,
             "C11": mon_C11, "C17": mon_C17}
